@@ -511,9 +511,16 @@ func runC05(cfg Config, r *Result) {
 	if cfg.Replay != "" {
 		if b, err := os.ReadFile(cfg.Replay); err == nil {
 			var v struct {
+				Key   string         `json:"key"`
 				Input map[string]any `json:"input"`
 			}
 			if json.Unmarshal(b, &v) == nil {
+				if s, ok := v.Input["source"].(string); ok && strings.HasPrefix(v.Key, "typed-parser-model") {
+					// a recorded difference of the typed parser-model stream (harness/c05typed.go)
+					runC05typedReplay(cfg, r)
+					_ = s
+					return
+				}
 				if s, ok := v.Input["program"].(string); ok {
 					rule, _ := v.Input["rule"].(string)
 					pos, _ := v.Input["position"].(string)
@@ -605,6 +612,10 @@ func runC05(cfg Config, r *Result) {
 	rule := r.Rule
 	runC05rules(cfg, r)
 	r.Rule = rule + "; PARSER MODEL: " + r.Rule
+	// the same through the typed parser model (coq/ParserTyped.v, concrete typing oracle; theorems Props/C05_typed.v): harness/c05typed.go
+	rule = r.Rule
+	runC05typed(cfg, r)
+	r.Rule = rule + "; " + r.Rule
 }
 
 // small seed programs that contain every block form (so that every rule meets every nesting)
